@@ -34,14 +34,22 @@ var exploreAll = refsel.Rec(-1, refsel.Union(refsel.Match(), refsel.All(refsel.E
 // function of the path, so cases replay): the two forms are documented to be the same segment, for
 // list indices and for map keys alike.
 func mkPath(segs []string) datamodel.Path {
-	ps := make([]datamodel.PathSegment, len(segs))
+	// the caller's buffer is full (len == cap) for an odd number of segments and has spare room otherwise
+	ps := make([]datamodel.PathSegment, len(segs), len(segs)+(len(segs)+1)%2*3)
 	for i, s := range segs {
 		ps[i] = datamodel.PathSegmentOfString(s)
 		if n, err := strconv.ParseInt(s, 10, 64); err == nil && n >= 0 && strconv.FormatInt(n, 10) == s && (i+len(segs)+int(s[len(s)-1]))%2 == 0 {
 			ps[i] = datamodel.PathSegmentOfInt(n)
 		}
 	}
-	return datamodel.NewPath(ps)
+	p := datamodel.NewPath(ps)
+	// NewPath copies ("in case your segments slice should mutate in the future"): the caller reuses its buffer
+	// for something else straight away — overwriting it in place and appending over it
+	for i := range ps {
+		ps[i] = datamodel.PathSegmentOfString("zz-buffer-reused")
+	}
+	_ = append(ps[:0], datamodel.PathSegmentOfInt(77), datamodel.PathSegmentOfInt(78))
+	return p
 }
 
 // stepwise resolves the path one LookupBySegment at a time, loading links through lsys.
